@@ -126,7 +126,12 @@ Definition classify_value (last : bool) (v : toks) : outcome nvexpr :=
            end
   | [TPunct "-"; t] =>
       if is_num_lit t then Ok (if last then XNegLit t else XUnaryNeg t)
-      else OutOfDomain "name-value expression"
+      else if is_lit_tok t then Ok (XOther v)       (* Expr::Unary(Neg, Expr::Lit(non-numeric)) *)
+      else match t with
+           | TIdent s => if path_seg_ok s then Ok (XOther v)   (* Expr::Unary(Neg, Expr::Path) *)
+                         else OutOfDomain "name-value expression"
+           | _ => OutOfDomain "name-value expression"
+           end
   | _ =>
       if has_angle v then OutOfDomain "name-value expression" else
       match parse_path_all v with
